@@ -148,13 +148,16 @@ func genC11Request(t *rapid.T, users []string) c11Req {
 		n := rapid.IntRange(0, 4).Draw(t, "ncmdargs")
 		for i := 0; i < n; i++ {
 			sep := rapid.SampledFrom([]string{"=", "=", "=", "=", "*"}).Draw(t, "cmd_arg_sep")
-			cargs = append(cargs, "cmd-arg"+sep+rapid.SampledFrom(append([]string{";", "reload", "|", "a b", "", "terminal;reload", "<cr>", "detail=all", "a*b", "x=y*z"}, c11Words...)).Draw(t, "cmd_arg_val"))
+			cargs = append(cargs, "cmd-arg"+sep+rapid.SampledFrom(append([]string{";", "reload", "|", "a b", "", "terminal;reload", "<cr>", "detail=all", "a*b", "x=y*z", "force<cr>", "reload<CR>", "<cr><cr>"}, c11Words...)).Draw(t, "cmd_arg_val"))
 		}
-		switch rapid.IntRange(0, 3).Draw(t, "line_end") {
+		switch rapid.IntRange(0, 4).Draw(t, "line_end") {
 		case 0:
 			cargs = append(cargs, "cmd-arg=<cr>")
 		case 1:
 			cargs = append(cargs, "cmd-arg=<CR>")
+		case 2:
+			// a last argument that merely ends in the line-ending marker is an argument like any other
+			cargs = append(cargs, "cmd-arg="+rapid.SampledFrom(append([]string{"force", "x "}, c11Words...)).Draw(t, "le_prefix")+rapid.SampledFrom([]string{"<cr>", "<CR>"}).Draw(t, "le_suffix"))
 		}
 		for _, a := range []string{svc, cmd} {
 			if a != "" {
